@@ -18,26 +18,51 @@ import (
 	"math/rand"
 	"net/mail"
 	"strings"
+	"sync/atomic"
 	"time"
 
 	"github.com/inbucket/inbucket/v3/pkg/extension/event"
 	"github.com/inbucket/inbucket/v3/pkg/message"
+	"github.com/inbucket/inbucket/v3/pkg/rest"
 
 	"verif/harness/internal/core"
 )
 
-type c19SlowListener struct{ d time.Duration }
+type c19SlowListener struct {
+	d     time.Duration
+	armed *int32 // 1 once the scenario proper begins: from then on the listener is slow and counts into n
+	pre   *int64 // events received before that (the prefill), at full speed
+	n     *int64 // events received while armed
+}
 
-func (l c19SlowListener) Receive(event.MessageMetadata) error { time.Sleep(l.d); return nil }
-func (l c19SlowListener) Delete(string, string) error         { time.Sleep(l.d); return nil }
+func (l c19SlowListener) got() {
+	if atomic.LoadInt32(l.armed) == 1 {
+		time.Sleep(l.d)
+		atomic.AddInt64(l.n, 1)
+	} else {
+		atomic.AddInt64(l.pre, 1)
+	}
+}
+func (l c19SlowListener) Receive(event.MessageMetadata) error { l.got(); return nil }
+func (l c19SlowListener) Delete(string, string) error         { l.got(); return nil }
 
 func c19Backlog(c *core.Ctx, r *rand.Rand, idx int) {
 	nBurst := []int{180, 260, 420}[r.Intn(3)]
 	delay := time.Duration(2+r.Intn(6)) * time.Millisecond
 	burstKind := []string{"purge", "deliveries"}[r.Intn(2)]
 	cancelAfter := time.Duration(20+r.Intn(150)) * time.Millisecond
-	cas := []string{fmt.Sprintf("backlog scenario %d (VERIF_SEED=%d): memory store, hub with one monitor listener that takes %v per event; burst = %s of %d messages; SMTP session B has sent half of its message; cancel() %v after the burst began",
-		idx, c.Seed, delay, burstKind, nBurst, cancelAfter)}
+	stalled := idx%2 == 0   // a second monitor whose client has stopped reading: its queue of 100 overflows during the burst
+	withCancel := idx%3 != 0 // otherwise the burst is left to drain: the healthy monitor must have seen every event (C15)
+	if stalled {
+		// the overflow (the monitor's 101st event) must come while the hub still has a backlog of more than its own queue of 100
+		nBurst = []int{260, 420}[r.Intn(2)]
+		if withCancel && r.Intn(2) == 0 {
+			cancelAfter = time.Duration(110+r.Intn(40)) * delay // ... and, half of the time, before the shutdown request
+		}
+	}
+	cas := []string{fmt.Sprintf("backlog scenario %d (VERIF_SEED=%d): memory store, hub with one monitor listener that takes %v per event%s; burst = %s of %d messages; SMTP session B has sent half of its message; %s",
+		idx, c.Seed, delay, map[bool]string{true: " and one WebSocket monitor whose client has stopped reading", false: ""}[stalled], burstKind, nBurst,
+		map[bool]string{true: fmt.Sprintf("cancel() %v after the burst began", cancelAfter), false: "no shutdown: the burst is left to drain"}[withCancel])}
 	w, err := c19NewWorld(c19Opts{startServers: true, monitorHist: 5})
 	if err != nil {
 		c.Note("c19 backlog: world: %v", err)
@@ -56,6 +81,9 @@ func c19Backlog(c *core.Ctx, r *rand.Rand, idx int) {
 		}
 		return err
 	}
+	armed, pre, seen := new(int32), new(int64), new(int64)
+	w.hub.AddListener(c19SlowListener{delay, armed, pre, seen})
+	w.hub.Sync()
 	if burstKind == "purge" {
 		for i := 0; i < nBurst; i++ {
 			if err := deliver("burst", fmt.Sprintf("pre-%d", i)); err != nil {
@@ -63,13 +91,19 @@ func c19Backlog(c *core.Ctx, r *rand.Rand, idx int) {
 				return
 			}
 		}
-		if !c19Within(20*time.Second, func() { w.hub.Sync() }) {
-			c.Note("c19 backlog: the hub did not settle after the prefill")
-			return
+		// every stored event of the prefill has come through the brokers' FIFO and the hub (the listener has counted it)
+		for t0 := time.Now(); atomic.LoadInt64(pre) < int64(nBurst); time.Sleep(5 * time.Millisecond) {
+			if time.Since(t0) > 60*time.Second {
+				c.Note("c19 backlog: the hub did not settle after the prefill (%d of %d events)", atomic.LoadInt64(pre), nBurst)
+				return
+			}
 		}
 	}
-	w.hub.AddListener(c19SlowListener{delay})
+	if stalled {
+		rest.VerifNewListenerV2(w.hub, "") // registers itself with the hub; nobody ever drains its queue
+	}
 	w.hub.Sync()
+	atomic.StoreInt32(armed, 1)
 
 	// session B: inside DATA, half of its message sent
 	b, err := c19Dial(w.smtpAddr)
@@ -114,6 +148,10 @@ func c19Backlog(c *core.Ctx, r *rand.Rand, idx int) {
 	}()
 	cas = append(cas, "another client: "+burstKind+" ("+fmt.Sprint(nBurst)+" events)", "cancel()")
 	time.Sleep(cancelAfter)
+	if !withCancel {
+		c19BacklogDrain(c, w, cas, burstKind, nBurst, burstDone, step, seen)
+		return
+	}
 	hubStopped := make(chan struct{})
 	// Hub.Start runs on w.ctx inside the world; its end is observed through a producer: once the loop has stopped, Sync returns at once
 	w.cancel()
@@ -179,9 +217,43 @@ func c19Backlog(c *core.Ctx, r *rand.Rand, idx int) {
 	c.Count(strings.Join(cas[:1], ""), true)
 }
 
+// the variant without shutdown (C15): a burst that makes one monitor overflow must cost the OTHER monitor nothing and must not block the hub
+func c19BacklogDrain(c *core.Ctx, w *c19World, cas []string, burstKind string, nBurst int, burstDone chan error, step func(send, want string) bool, seen *int64) {
+	c.H("c19:backlog:no-cancel:" + burstKind)
+	select {
+	case err := <-burstDone:
+		if err != nil {
+			c.Fail("store-call-returns", cas, "the "+burstKind+" returned "+err.Error(), "")
+		}
+	case <-time.After(30 * time.Second):
+		c.Fail("hub-never-blocks", cas, "the client whose store call emits the burst ("+burstKind+") had not returned after 30 s", "")
+		return
+	}
+	cas = append(cas, "B: second half, end of data, QUIT")
+	if !step("second half\r\n.\r\n", "250") || !step("QUIT\r\n", "221") {
+		c.Fail("open_session_finishes", cas, "session B did not get its 250 / 221 while the hub was working off the burst", "")
+		return
+	}
+	// every event emitted so far has gone through the brokers' FIFO into the hub's queue once a Sync issued now returns
+	deadline := time.Now().Add(60 * time.Second)
+	want := int64(nBurst + 1)
+	for atomic.LoadInt64(seen) < want && time.Now().Before(deadline) {
+		if !c19Within(20*time.Second, func() { w.hub.Sync() }) {
+			c.Fail("hub-never-blocks", cas, fmt.Sprintf("Sync() did not return within 20 s while the hub should be working off the burst (the healthy monitor has seen %d of %d events)", atomic.LoadInt64(seen), want), "")
+			return
+		}
+		time.Sleep(50 * time.Millisecond)
+	}
+	if got := atomic.LoadInt64(seen); got != want {
+		c.Fail("other-monitors-miss-nothing", cas, fmt.Sprintf("the healthy monitor was registered before the burst and is owed %d events (%d of the burst and the stored event of B's message); it has seen %d", want, nBurst, got), "")
+		return
+	}
+	c.Count(strings.Join(cas[:1], ""), true)
+}
+
 func c19BacklogLeg(c *core.Ctx) {
 	r := c.SubRng("c19-backlog")
-	n := c.Scale(4, 40)
+	n := c.Scale(6, 60)
 	for i := 0; i < n; i++ {
 		c19Backlog(c, r, i)
 	}
